@@ -171,10 +171,14 @@ type chainState struct {
 // NewBuilder starts an empty world for spec (spec.Blocks is appended to by Add).
 func NewBuilder(spec *Spec) *Builder {
 	InitLX()
+	base := append([]uint64(nil), basePrices0...)
+	if spec.PegPriceX > 1 {
+		base[0] *= spec.PegPriceX
+	}
 	return &Builder{
 		W:      &World{Spec: spec, blobs: make(map[factom.Bytes32][]byte)},
 		rng:    rand.New(rand.NewSource(int64(spec.Seed))),
-		base:   append([]uint64(nil), basePrices0...),
+		base:   base,
 		chains: map[factom.Bytes32]*chainState{OPRChain: {}, SPRChain: {}, TxChain: {}},
 		t0:     time.Date(2019, 10, 1, 0, 0, 0, 0, time.UTC),
 	}
